@@ -744,18 +744,24 @@ func (l *commitLog) split(oldActiveSegment *segment) error {
 	// Do a CAS on the active segment to ensure no other threads have replaced
 	// it already. If this fails, it means another thread has already replaced
 	// it, so delete the new segment and return ErrSegmentExists.
+	// Hold the log mutex across the CAS and the segment list update. Once the
+	// CAS succeeds appenders write to the new segment, so the HW can move into
+	// it; the HW and the segment list are both read under this mutex, so no
+	// reader can see a HW that points into a segment missing from the list.
+	l.mu.Lock()
 	if !atomic.CompareAndSwapPointer(
 		(*unsafe.Pointer)(unsafe.Pointer(&l.vActiveSegment)),
 		unsafe.Pointer(oldActiveSegment), unsafe.Pointer(segment)) {
+		l.mu.Unlock()
 		segment.Delete() // nolint: errcheck
 		return ErrSegmentExists
 	}
 	if verifhook.Enabled {
 		if err := verifhook.Point("split.afterCAS"); err != nil {
+			l.mu.Unlock()
 			return err
 		}
 	}
-	l.mu.Lock()
 	segments := append(l.segments, segment)
 	l.segments = segments
 	l.mu.Unlock()
